@@ -1,5 +1,6 @@
 #!/bin/sh
 # Usage: lib/run_seed.sh <seed-id under /verif/seeded> <check ids...>   -- apply the seeded patch to /repo, run the checks, undo.
+export VERIF_EVIDENCE_DIR=/verif/build/evidence_scratch; mkdir -p $VERIF_EVIDENCE_DIR
 S=/verif/seeded/$1; shift
 cd /verif
 git -C /repo apply "$S/patch.diff" || { echo "patch does not apply"; exit 9; }
